@@ -100,9 +100,9 @@ theorem loadDirectory_ok_loaded {p : Path} {s s' : St} (h : loadDirectory p s = 
 /-- the state in which `do_rm` of a directory continues after `rmDirPrep`: `s0` is the (consistent)
     state after loading the directory; either nothing was touched (the directory has no upper
     real inode) or the upper directory has been emptied -/
-def RmReady (pp : Path) (n : Name) (s' : St) : Prop :=
+def RmReady (d0 : Disk) (pp : Path) (n : Name) (s' : St) : Prop :=
   ∃ (s0 : St) (m : MNode) (r : Real) (rest : List Real),
-    Consistent s0 ∧ s0.mem (n :: pp) = some m ∧ m.loaded = true ∧ m.reals = r :: rest ∧
+    Consistent s0 ∧ s0.disk = d0 ∧ s0.mem (n :: pp) = some m ∧ m.loaded = true ∧ m.reals = r :: rest ∧
     (s0.disk.statReal r).isDir = true ∧
     ((m.inUpper = false ∧ s'.disk = s0.disk ∧ s'.mem = s0.mem) ∨
      (m.inUpper = true ∧ ∃ L Lt, s0.disk.upper = some L ∧ EmptyInv s0 L (n :: pp) m s' Lt ∧
@@ -114,29 +114,31 @@ theorem countKids_eval {s : St} {p : Path} {m : MNode} (hm : s.mem p = some m) :
   simp [countKids, hm]
 
 theorem rmDirPrep_spec (pp : Path) (n : Name) (s : St) (hc : Consistent s) :
-    Outcome (rmDirPrep (n :: pp) s) (fun _ s' => RmReady pp n s') Consistent := by
+    Outcome (rmDirPrep (n :: pp) s) (fun _ s' => RmReady s.disk pp n s') (CD s.disk) := by
   unfold rmDirPrep
-  have hld := loadDirectory_cons (n :: pp) s hc
+  have hld := loadDirectory_cd s.disk (n :: pp) s ⟨hc, rfl⟩
   cases hres : loadDirectory (n :: pp) s with
   | err e s1 => rw [bind_err hres]; exact hld.2 e s1 hres
   | ok u s1 =>
-    have hc1 : Consistent s1 := hld.1 u s1 hres
+    have hcd1 : CD s.disk s1 := hld.1 u s1 hres
+    have hc1 : Consistent s1 := hcd1.1
+    have hd1 : s1.disk = s.disk := hcd1.2
     obtain ⟨m, hm, hlo⟩ := loadDirectory_ok_loaded hres
     rw [bind_ok hres, bind_ok (getNode_ok hm)]
     have hst := nodeStat_eq hc1 hm
     cases hr : m.reals with
-    | nil => rw [hr] at hst; rw [bind_err hst]; exact hc1
+    | nil => rw [hr] at hst; rw [bind_err hst]; exact hcd1
     | cons r rest =>
       rw [hr] at hst
       rw [bind_ok hst]
       by_cases hd : (s1.disk.statReal r).isDir = true
       rotate_left
-      · simp only [hd, Bool.not_false, if_true]; exact hc1
+      · simp only [hd, Bool.not_false, if_true]; exact hcd1
       simp only [hd, Bool.not_true, Bool.false_eq_true, if_false]
       rw [bind_ok (countKids_eval hm)]
       generalize hks : (m.kids.filterMap fun c => s1.mem (c :: n :: pp)) = ks
       by_cases hcnt : (ks.filter (!·.whiteout)).length > 0
-      · simp only [hcnt, if_true]; exact hc1
+      · simp only [hcnt, if_true]; exact hcd1
       simp only [hcnt, if_false]
       -- every child node is a whiteout
       have hallw : ∀ k ∈ ks, k.whiteout = true := by
@@ -154,7 +156,7 @@ theorem rmDirPrep_spec (pp : Path) (n : Name) (s : St) (hc : Consistent s) :
       by_cases hmu : m.inUpper = true
       rotate_left
       · simp only [hmu, Bool.and_false, whenM_false]
-        exact ⟨s1, m, r, rest, hc1, hm, hlo, hr, hd, Or.inl ⟨by simpa using hmu, rfl, rfl⟩⟩
+        exact ⟨s1, m, r, rest, hc1, hd1, hm, hlo, hr, hd, Or.inl ⟨by simpa using hmu, rfl, rfl⟩⟩
       obtain ⟨L, hup⟩ : ∃ L, s1.disk.upper = some L := by
         cases h : s1.disk.upper with
         | none => have := no_upper_not_inUpper hc1 h hm; rw [this] at hmu; cases hmu
@@ -163,9 +165,9 @@ theorem rmDirPrep_spec (pp : Path) (n : Name) (s : St) (hc : Consistent s) :
       · simp only [hw2, hmu, decide_true, Bool.and_self, whenM_true]
         obtain ⟨t, Lt, hrun, hi, hempty⟩ := emptyNodeDirectory_spec hc1 hup hm hmu hlo hr hd hwh
         rw [hrun]
-        exact ⟨s1, m, r, rest, hc1, hm, hlo, hr, hd, Or.inr ⟨hmu, L, Lt, hup, hi, hempty⟩⟩
+        exact ⟨s1, m, r, rest, hc1, hd1, hm, hlo, hr, hd, Or.inr ⟨hmu, L, Lt, hup, hi, hempty⟩⟩
       · simp only [hw2, decide_false, Bool.false_and, whenM_false]
-        refine ⟨s1, m, r, rest, hc1, hm, hlo, hr, hd, Or.inr ⟨hmu, L, L, hup, EmptyInv.start hc1 hup hm, fun c => ?_⟩⟩
+        refine ⟨s1, m, r, rest, hc1, hd1, hm, hlo, hr, hd, Or.inr ⟨hmu, L, L, hup, EmptyInv.start hc1 hup hm, fun c => ?_⟩⟩
         -- no child nodes at all, so the upper directory is empty
         have hksnil : ks = [] := by
           cases hk : ks with
@@ -221,7 +223,8 @@ theorem whiteoutEnd_gen {s0 : St} (hc : Consistent s0) {L : Layer} (hup : s0.dis
     (hleaf : ∀ c, (L1 (c :: n :: pp)).isAbsent = true) :
     Outcome ((do
         let ri ← pr.createWhiteout n
-        insertChild pp n (newNode ri)) s3) (fun _ s' => Consistent s' ∧ Gone pp n s') Consistent := by
+        insertChild pp n (newNode ri)) s3) (fun _ s' => Consistent s' ∧ Gone pp n s' ∧ FrameX (n :: pp) s0 s')
+      (fun s' => Consistent s' ∧ FrameD s0.disk s'.disk (n :: pp)) := by
   have hu : s0.disk.upper.isSome := by rw [hup]; rfl
   have hdir0 : (s0.disk.nodeAt 0 pp).isDir = true := by simpa [Disk.nodeAt, Disk.layer, hup] using hpd
   have hnpp : (n :: pp).isSuffixOf pp = false := not_below_parent n pp
@@ -268,22 +271,29 @@ theorem whiteoutEnd_gen {s0 : St} (hc : Consistent s0) {L : Layer} (hup : s0.dis
     (by rw [hloc, hreal]; exact Or.inl rfl)
     (by simp [newNode, headWhiteout])
     (by rw [hloc]; simp) []
-  refine ⟨this.congr ?_ ?_, Or.inl ⟨newNode { childReal pr n with whiteout := true }, ?_, rfl⟩⟩
-  · rw [hd5, hd4, hd3, hprl]; rfl
+  have hdisk5 : s5.disk = s0.disk.setLayer 0 (L1.set (n :: pp) .whiteout) := by rw [hd5, hd4, hd3, hprl]; rfl
+  refine ⟨this.congr ?_ ?_, Or.inl ⟨newNode { childReal pr n with whiteout := true }, ?_, rfl⟩,
+    FrameX.of_upper hup hdisk5 _ (fun q hq => by
+      have : q ≠ n :: pp := by intro h; rw [h, below_self] at hq; cases hq
+      simp only [Layer.set, if_neg this]
+      exact hout q hq)⟩
+  · exact hdisk5
   · rw [hm5, hm4, hm3, insertedMem_removedMem]
   · rw [hm5, hm4, hm3, insertedMem_removedMem, insertedMem_apply]
     simp [cons_ne_self]
 
 /-- the rest of `do_rm` for a directory, from the state `rmDirPrep` leaves -/
-theorem rmdirTail_cons (pp : Path) (n : Name) (s' : St) (h : RmReady pp n s') :
+theorem rmdirTail_cons (d0 : Disk) (pp : Path) (n : Name) (s' : St) (h : RmReady d0 pp n s') :
     Outcome ((do
         copyNodeUp pp
         let node ← getNode (n :: pp)
         let pm ← getNode pp
         let s ← getSt
         rmFinish pp n true node pm (!(node.upperLayerOnly && !lowerEntryExists s.disk pm n))) s')
-      (fun _ s'' => Consistent s'' ∧ Gone pp n s'') Consistent := by
-  obtain ⟨s0, m, r, rest, hc0, hm, hlo, hr, hd, hcase⟩ := h
+      (fun _ s'' => Consistent s'' ∧ Gone pp n s'' ∧ FrameD d0 s''.disk (n :: pp))
+      (fun s'' => Consistent s'' ∧ FrameD d0 s''.disk (n :: pp)) := by
+  obtain ⟨s0, m, r, rest, hc0, hd0, hm, hlo, hr, hd, hcase⟩ := h
+  subst hd0
   obtain ⟨pm, hpm, hnk⟩ := hc0.reach n pp m hm
   have hplo : pm.loaded = true := by
     cases hx : pm.loaded with
@@ -297,17 +307,33 @@ theorem rmdirTail_cons (pp : Path) (n : Name) (s' : St) (h : RmReady pp n s') :
     have hpm1 : s'.mem pp = some pm := by rw [hm']; exact hpm
     have hcp := copyNodeUp_spec pp s' hc'
     cases hres : copyNodeUp pp s' with
-    | err e s2 => rw [hres] at hcp; rw [bind_err hres]; exact hcp.1
+    | err e s2 => rw [hres] at hcp; rw [bind_err hres]; exact ⟨hcp.1, by rw [← hd']; exact hcp.2.toD _⟩
     | ok u s2 =>
       rw [hres] at hcp
       rw [bind_ok hres]
+      have hdn : DirNode pp s' := by
+        intro m0 r0 rest0 hm0 hr0
+        cases hdd : (s'.disk.statReal r0).isDir with
+        | true => rfl
+        | false =>
+          exfalso
+          rw [hpm1] at hm0; cases hm0
+          have hnk' := hnk
+          rw [(nondir_no_kids hc' hpm1 hr0 hdd).1] at hnk'
+          cases hnk'
+      have hv := hcp.view hdn
       obtain ⟨pm2, hpm2, hpu2⟩ := hcp.up
       obtain ⟨pm2', hpm2', hlo2, _⟩ := hcp.keep pp pm hpm1
       rw [hpm2] at hpm2'; cases hpm2'
       have hq2 : s2.mem (n :: pp) = some m := by
         rw [hcp.frame _ (by simp [isSuffixOf_cons_self])]; exact hm1
       rw [bind_ok (getNode_ok hq2), bind_ok (getNode_ok hpm2), bind_ok (getSt_eval s2)]
-      exact rmFinish_cons hcp.cons pp n true hpm2 hpu2 (by rw [hlo2]; exact hplo) hq2 hnw (fun _ => hmu)
+      have hfin := rmFinish_cons hcp.cons pp n true hpm2 hpu2 (by rw [hlo2]; exact hplo) hq2 hnw (fun _ => hmu)
+      cases hres3 : rmFinish pp n true m pm2 (!(m.upperLayerOnly && !lowerEntryExists s2.disk pm2 n)) s2 with
+      | err e s3 => rw [hres3] at hfin; exact ⟨hfin.1, by rw [← hd']; exact (hv.trans hfin.2).toD _⟩
+      | ok u3 s3 =>
+        rw [hres3] at hfin
+        exact ⟨hfin.1, hfin.2.1, by rw [← hd']; exact (FrameX.after hv hfin.2.2).toD⟩
   · -- the upper directory is empty now: remove it, then decide about the whiteout
     have hu : s0.disk.upper.isSome := by rw [hup]; rfl
     have hpu := parent_inUpper hc0 hm hpm hmu
@@ -371,8 +397,16 @@ theorem rmdirTail_cons (pp : Path) (n : Name) (s' : St) (h : RmReady pp n s') :
     rw [hlee, hmtulo]
     by_cases hneed : (if pr.opq = true then false else !(m.upperLayerOnly && !lowerEntryExists s0.disk pm n)) = true
     · rw [if_pos hneed]
-      exact whiteoutEnd_gen hc0 hup pp n hpm hpu hplo hprl hprp hpru hpd s4 _ hdisk4 hmem4
+      have hwe := whiteoutEnd_gen hc0 hup pp n hpm hpu hplo hprl hprp hpru hpd s4 _ hdisk4 hmem4
         (by simp [Layer.set, Node.isAbsent]) hout1 htree1 hleaf1
+      revert hwe
+      generalize (do
+        let ri ← pr.createWhiteout n
+        insertChild pp n (newNode ri) : M Unit) s4 = res
+      intro hwe
+      cases res with
+      | ok u s5 => exact ⟨hwe.1, hwe.2.1, hwe.2.2.toD⟩
+      | err e s5 => exact hwe
     · rw [if_neg hneed]
       have hcond : pr.opq = true ∨ lowerEntryExists s0.disk pm n = false := by
         by_cases ho : pr.opq = true
@@ -392,7 +426,8 @@ theorem rmdirTail_cons (pp : Path) (n : Name) (s' : St) (h : RmReady pp n s') :
         · simp only [Layer.set, if_neg (ne_cons_self n pp)]; exact hi.out pp hnpp
         · simp [Layer.set]
       have := consistent_removeChild_gen hc0 hup n pp hpm hout1 htree1 hH []
-      refine ⟨this.congr hdisk4 hmem4, Or.inr ⟨{ pm with kids := pm.kids.filter (· != n) }, ?_, hplo, ?_⟩⟩
+      refine ⟨this.congr hdisk4 hmem4, Or.inr ⟨{ pm with kids := pm.kids.filter (· != n) }, ?_, hplo, ?_⟩,
+        (FrameX.of_upper hup hdisk4 _ hout1).toD⟩
       · rw [hmem4, removedMem_apply]; simp
       · simp [List.mem_filter]
 
@@ -411,11 +446,61 @@ theorem doRm_rmdir_cons (pp : Path) (n : Name) :
   simp only [whenM_true]
   have hprep := rmDirPrep_spec pp n s hc
   cases hres : rmDirPrep (n :: pp) s with
-  | err e s1 => rw [hres] at hprep; rw [bind_err hres]; exact hprep
+  | err e s1 => rw [hres] at hprep; rw [bind_err hres]; exact hprep.1
   | ok u s1 =>
     rw [hres] at hprep
     rw [bind_ok hres]
-    exact rmdirTail_cons pp n s1 hprep
+    have ht := rmdirTail_cons s.disk pp n s1 hprep
+    revert ht
+    generalize (do
+        copyNodeUp pp
+        let node ← getNode (n :: pp)
+        let pm ← getNode pp
+        let s ← getSt
+        rmFinish pp n true node pm (!(node.upperLayerOnly && !lowerEntryExists s.disk pm n)) : M Unit) s1 = res
+    intro ht
+    cases res with
+    | ok u s2 => exact ⟨ht.1, ht.2.1⟩
+    | err e s2 => exact ht.1
+
+/-- the frame of `do_rm` of a directory: success or failure, the union outside the subtree at the
+    directory is what it was, up to xattrs of parent directories that had to be copied up -/
+theorem doRm_rmdir_frame (d : Disk) (pp : Path) (n : Name) :
+    Triple (CD d) (doRm pp n true) (fun _ s => Consistent s ∧ FrameD d s.disk (n :: pp))
+      (fun s => Consistent s ∧ FrameD d s.disk (n :: pp)) := by
+  have hE : ∀ s, CD d s → Consistent s ∧ FrameD d s.disk (n :: pp) :=
+    fun s h => ⟨h.1, by rw [h.2]; exact FrameD.refl d _⟩
+  unfold doRm
+  refine Triple.bind (Q := fun _ => CD d) ?_ fun up => ?_
+  · intro s hs
+    refine ⟨fun a s' h => ?_, fun e s' h => ?_⟩ <;> cases h
+    exact hs
+  refine Triple.ite' (fun _ => Triple.fail' hE) fun _ => ?_
+  refine Triple.bind ((lookupSelf_ro (loadDirectory_cd d) pp).conseq (fun _ h => h) (fun _ _ h => h) hE) fun _ => ?_
+  refine Triple.bind ((lookupNode_ro (loadDirectory_cd d) pp n).conseq (fun _ h => h) (fun _ _ h => h) hE) fun node => ?_
+  refine Triple.ite' (fun _ => Triple.fail' hE) fun _ => ?_
+  apply Triple.ofOutcome
+  intro s ⟨hc, hd⟩
+  simp only [whenM_true]
+  have hprep := rmDirPrep_spec pp n s hc
+  cases hres : rmDirPrep (n :: pp) s with
+  | err e s1 => rw [hres] at hprep; rw [bind_err hres]; exact hE s1 (by rw [← hd]; exact hprep)
+  | ok u s1 =>
+    rw [hres] at hprep
+    rw [bind_ok hres]
+    have ht := rmdirTail_cons s.disk pp n s1 hprep
+    revert ht
+    generalize (do
+        copyNodeUp pp
+        let node ← getNode (n :: pp)
+        let pm ← getNode pp
+        let s ← getSt
+        rmFinish pp n true node pm (!(node.upperLayerOnly && !lowerEntryExists s.disk pm n)) : M Unit) s1 = res
+    intro ht
+    rw [hd] at ht
+    cases res with
+    | ok u s2 => exact ⟨ht.1, ht.2.2⟩
+    | err e s2 => exact ht
 
 theorem runOp_rmdir_gone (p : List Name) :
     Triple Consistent (runOp (.rmdir p))
